@@ -318,9 +318,9 @@ func watchdog(t Tier) time.Duration {
 		}
 	}
 	if t == Thorough {
-		return 900 * time.Second
+		return 600 * time.Second
 	}
-	return 300 * time.Second
+	return 150 * time.Second
 }
 
 // spawn runs one worker process over [from,to); returns the batch result (nil if the process
@@ -411,7 +411,7 @@ func runBatch(p Property, o DriveOpts, agg *Agg, sp batchSpec, proc int, race bo
 			}
 		}
 		// isolated re-run of the suspect case with 10x the time
-		b1, timedOut1, tail1 := spawn(p, o, exe, idx, idx+1, fmt.Sprintf("%s-iso%d", prefix, idx), append(env, "VERIF_ISOLATED=1"), 10*wd)
+		b1, timedOut1, tail1 := spawn(p, o, exe, idx, idx+1, fmt.Sprintf("%s-iso%d", prefix, idx), append(env, "VERIF_ISOLATED=1"), 3*wd)
 		switch {
 		case b1 != nil:
 			mergeBatch(merged, b1)
@@ -513,7 +513,7 @@ func driveReplay(p Property, o DriveOpts) int {
 		env = append(env, "GORACE=halt_on_error=0 log_path="+prefix+".race")
 	}
 	env = append(env, "VERIF_REPLAY=1")
-	b, timedOut, tail := spawn(p, o, exe, w.Case, w.Case+1, prefix, env, 10*watchdog(o.Tier))
+	b, timedOut, tail := spawn(p, o, exe, w.Case, w.Case+1, prefix, env, 3*watchdog(o.Tier))
 	if b == nil {
 		fmt.Printf("replay: worker died or hung (timedOut=%v)\n%s\n", timedOut, tail)
 		fmt.Printf("VIOLATION property=%s replay=%s\n", p.ID(), o.Replay)
